@@ -416,6 +416,12 @@ class Gen:
         for i in reversed(range(nsubs)):
             self.callable = self.sub_names[i + 1:]
             body = self.block(rng.choice([1, 2, 2, 3]), rng.randint(1, 4), False, True)
+            # subflows that start by calling another subflow / by waiting for the user
+            if self.callable and rng.random() < 0.35:
+                body.insert(0, ["do", rng.choice(self.callable)])
+                self.stats["do"] += 1
+            elif rng.random() < 0.3:
+                body.insert(0, ["user", self.user()])
             subs.insert(0, [self.sub_names[i], body])
         self.callable = list(self.sub_names)
         maxd = rng.choice([1, 2, 2, 3, 3, 4])
@@ -632,7 +638,9 @@ class Oracle:
             elif k == "continue":
                 raise _Continue()
             elif k == "do":
+                self.depth += 1
                 yield from self.run_block(self.subs[s[1]])
+                self.depth -= 1
 
     @staticmethod
     def actionable(w):
@@ -651,6 +659,8 @@ class Oracle:
         try:
             self.wait = next(self.gen)
             self.next = self.wait if self.actionable(self.wait) else None
+            if self.depth >= 2 and self.next is None:
+                self.flags.add("nested-call-blocked")
         except StopIteration:
             self.gen = None
             self.wait = None
@@ -660,6 +670,7 @@ class Oracle:
         """-> ("steps", [...]) | ("raise",) ; also leaves self.wait (what the flow waits on), self.flags."""
         self.ctx, self.upd, self.gen, self.wait, self.next = {}, {}, None, None, None
         self.budget = 20000
+        self.depth = 0
         self.flags = set()
         actual = []
         try:
@@ -685,6 +696,7 @@ class Oracle:
                 if self.gen is None:
                     first = self.prog["main"][0]
                     if self.matches(first, ev):
+                        self.depth = 0
                         self.gen = self.run_block(self.prog["main"][1:])
                         self.advance()
                         if self.gen is None:
@@ -954,6 +966,8 @@ def classify(prog, hist, oracle_flags, impl, want):
         return "compute_next_steps-does-not-return"
     if "finished-in-starting-event" in oracle_flags:
         return "flow-finished-in-starting-event-stays-active"
+    if "nested-call-blocked" in oracle_flags:
+        return "statement-after-nested-do-proposed-while-subflow-waits"
     if impl[0] == "raise" and want[0] != "raise":
         return "unexpected-exception"
     return "next-step-differs-from-structured-semantics"
@@ -976,8 +990,10 @@ def run(tier, seed, replay=None):
     if not okm:
         out.add_broken("coq:theories/V1/InterpRun.v", logm)
 
-    n_prog = 170 if tier == "quick" else 2500
+    n_prog = 140 if tier == "quick" else 2500
     n_hist = 4 if tier == "quick" else 8
+    if os.environ.get("C14_NPROG"):
+        n_prog = int(os.environ["C14_NPROG"])      # exploration runs
     if replay:
         n_prog = 0
 
@@ -1101,7 +1117,7 @@ def run(tier, seed, replay=None):
                     n_nontrivial += 1
             if len(samples) < 3 and len(h) >= 4 and nontrivial(pe["prog"], h):
                 samples.append({"colang": pe["text"], "history": h, "impl": r1})
-        chunks.append({"defs": defs, "i": my_i, "s": my_s, "c": (f"({pname}, {cname})", pe)})
+        chunks.append({"defs": defs, "i": my_i, "s": my_s, "c": (f"({pname}, {cname})", pe), "pname": pname})
 
     # ---- the model inside Coq: groups of programs, one run_cases call per group and check
     disagree_i, disagree_s, disagree_c = [], [], []
@@ -1121,19 +1137,32 @@ def run(tier, seed, replay=None):
         def do_group(gi_group):
             gi, grp = gi_group
             pre = PREAMBLE + "".join(ch["defs"] for ch in grp)
-            ti = [t for ch in grp for (t, _p, _r) in ch["i"]]
-            ts = [t for ch in grp for t in ch["s"]]
+            flat = [(ch, j) for ch in grp for j in range(len(ch["i"]))]
+            tb = [f"({ch['pname']}, {ch['i'][j][0][1:]}" for ch, j in flat]
+            r = {"i": ([], None), "s": ([], None)}
+            bools, err = C.run_cases(f"{PID}_b{gi}", pre, tb, "check_both", shard=100000)
+            if err:
+                return grp, {"i": ([], err), "s": ([], err), "c": ([], None)}, []
+            bad = [k for k, ok in enumerate(bools) if not ok]
+            ri = [True] * len(flat)
+            rs = [True] * len(flat)
+            if bad:
+                ti = [flat[k][0]["i"][flat[k][1]][0] for k in bad]
+                ts = [flat[k][0]["s"][flat[k][1]] for k in bad]
+                bi, ei = C.run_cases(f"{PID}_i{gi}", pre, ti, "check_interp", shard=100000)
+                bs, es = C.run_cases(f"{PID}_s{gi}", pre, ts, "check_spec", shard=100000)
+                if ei or es:
+                    return grp, {"i": ([], ei or es), "s": ([], ei or es), "c": ([], None)}, []
+                for k, a, b2 in zip(bad, bi, bs):
+                    ri[k], rs[k] = a, b2
             tc = [ch["c"][0] for ch in grp]
-            r = {}
-            r["i"] = C.run_cases(f"{PID}_i{gi}", pre, ti, "check_interp", shard=100000)
-            r["s"] = C.run_cases(f"{PID}_s{gi}", pre, ts, "check_spec", shard=100000)
-            r["c"] = C.run_cases(f"{PID}_c{gi}", pre, tc, "check_compile", shard=100000)
-            return grp, r
+            rc = C.run_cases(f"{PID}_c{gi}", pre, tc, "check_compile", shard=100000)
+            return grp, {"i": (ri, None), "s": (rs, None), "c": rc}, flat
 
-        with ThreadPoolExecutor(max_workers=max(1, C.NPROC // 3)) as ex:
+        with ThreadPoolExecutor(max_workers=max(1, C.NPROC // 2)) as ex:
             results = list(ex.map(do_group, enumerate(groups)))
         coq_s = round(time.time() - t0, 1)
-        for grp, r in results:
+        for grp, r, _flat in results:
             for kind in ("i", "s", "c"):
                 if r[kind][1]:
                     out.add_broken(f"correspondence:C14-{kind}(coqc)", r[kind][1])
